@@ -543,7 +543,7 @@ impl Model {
                 self.index_dir = true;
                 Ok(())
             }
-            Op::Chdir { .. } => Ok(()),
+            Op::Chdir { .. } | Op::AgeCache { .. } => Ok(()),
             Op::ForeignRecord { bucket_of, .. } => {
                 let k = ctx.key(*bucket_of).to_string();
                 self.index.entry(k).or_default().bucket_exists = true;
